@@ -126,6 +126,46 @@ def _wrap_acquire(conn, dev, t, spans, is_async, after=None):
     conn.acquire_priv = w
 
 
+def sub_case(case, stp, j):
+    """the j-th follow-up operation of an operation history as a case of its own (same connection, same device)"""
+    sub = {"id": f"{case.get('id')}+{j}", "platform": case["platform"], "stack": case["stack"], "op": stp["op"], "stop": stp.get("stop", False),
+           "eager": False, "eager_input": False, "fwc": None, "fail": list(case["fail"]), "outputs": case["outputs"], "session": case.get("session"),
+           "ret": case.get("ret", "\n"), "warm": False, "priv": stp.get("priv", case.get("priv", "")) if stp["op"] in CFG_OPS else "",
+           "ctor_fwc": case.get("ctor_fwc"), "followup": True}
+    if stp["op"] in LIST_OPS:
+        sub["lines"] = list(stp["lines"])
+    else:
+        sub["text"] = stp["text"]
+    return finish_case(sub)
+
+
+async def _call_sub(cn, sub):
+    kw = {}
+    if sub["op"] != "cmd":
+        kw.update(stop_on_failed=sub["stop"], eager=False)
+    if sub["op"] in CFG_OPS and sub.get("priv"):
+        kw["privilege_level"] = sub["priv"]
+    if sub["op"] == "cmds":
+        return await _aw(cn.send_commands(list(sub["lines"]), **kw))
+    if sub["op"] == "cmd":
+        return await _aw(cn.send_command(sub["text"], **kw))
+    if sub["op"] == "cfgs":
+        return await _aw(cn.send_configs(list(sub["lines"]), **kw))
+    if sub["op"] == "cfg":
+        return await _aw(cn.send_config(sub["text"], **kw))
+    raise ValueError(sub["op"])
+
+
+def _res_fields(op, res):
+    if res is None:
+        return {"resps": [], "multi_failed": None, "merged": None}
+    if op == "cmd":
+        return {"resps": [(res.channel_input, res.result, bool(res.failed))], "multi_failed": None, "merged": None}
+    if op == "cfg":
+        return {"resps": None, "multi_failed": None, "merged": (res.result, bool(res.failed), res.channel_input)}
+    return {"resps": [(r.channel_input, r.result, bool(r.failed)) for r in res], "multi_failed": bool(res.failed), "merged": None}
+
+
 async def run_real(case, tmpdir):
     """-> observation dict"""
     from harness.simdevice import CliDevice
@@ -254,6 +294,40 @@ async def run_real(case, tmpdir):
                     rec["exc"] = "HARNESS:" + repr(e)[:120]
                 rec["containers_after"] = containers()
                 obs["repeats"].append(rec)
+        # operation history: further operations on the SAME connection right after this one (no reconnect, nothing in between):
+        # each is observed like a first call (exec log with modes and acquire_priv spans, wire, responses, belief/mode around it)
+        obs["then"] = []
+        if plat != "generic" and not obs["stall"] and not case.get("fault") and not case.get("generic_mode"):
+            for j, stp in enumerate(case.get("then", []), start=2):
+                sub = sub_case(case, stp, j)
+                rec = {"exc": None, "stall": False, "generic": "0", "belief0": conn._current_priv_level.name, "mode0": dev.mode_name(),
+                       "levels": obs["levels"], "markers": obs["markers"], "dpriv": obs["dpriv"], "repeats": [], "file_steps": []}
+                del spans[:]
+                m0, wb = len(dev.exec_log), len(t.writes())
+                r2 = None
+                try:
+                    r2 = await _call_sub(conn, sub)
+                except SimStall:
+                    rec["stall"] = True
+                except Exception as e:  # noqa
+                    rec["exc"] = type(e).__name__
+                    rec["exc_repr"] = repr(e)[:200]
+                newl = dev.exec_log[m0:]
+                ins = [False] * len(newl)
+                for sp in spans:
+                    for i in range(sp["s"] - m0, sp["e"] - m0):
+                        if 0 <= i < len(newl):
+                            ins[i] = True
+                rec["log"] = [(ins[i], m, l) for i, (m, l) in enumerate(newl)]
+                rec["wire"] = t.writes()[wb:]
+                rec["spans"] = [{"target": sp["target"], "belief": sp["belief"], "mode": sp["mode"], "ok": sp["ok"],
+                                 "lines": [l for _, l in dev.exec_log[sp["s"]:sp["e"]]]} for sp in spans]
+                rec["belief1"], rec["mode1"] = conn._current_priv_level.name, dev.mode_name()
+                rec["moves"] = _moves(dev, case.get("session"))
+                rec.update(_res_fields(sub["op"], r2))
+                obs["then"].append((sub, rec))
+                if rec["stall"]:
+                    break
         # file history: the SAME path used again after its content changed (rewritten / appended / truncated / replaced by
         # rename), on this connection or another one (other stack too), mixed with in-memory calls
         obs["file_steps"] = []
@@ -575,6 +649,15 @@ def oracle(case, obs):
     if not case.get("fault") and "log" in obs and not obs["stall"]:
         v += oracle_history(case, obs)
         v += oracle_file_history(case, obs)
+        # operation history: every follow-up operation on the same connection is judged exactly like a first call
+        for j, (sub, rec) in enumerate(obs.get("then", []), start=2):
+            if not in_domain(sub):
+                break
+            for kind, detail in oracle_core(sub, rec):
+                v.append((kind, f"call {j} of a history on one connection ({sub['op']} {_short(expected_lines(sub))} priv={sub.get('priv')!r} right after "
+                                f"{case['op']} {_short(expected_lines(case))}; driver believed {rec['belief0']!r}, device was in {rec['mode0']!r}): {detail}"))
+            if v:
+                break
     return v
 
 
@@ -688,6 +771,14 @@ def oracle_core(case, obs):
             v.append(("abort-mode" if aborts else "nav-interleaved", f"navigation {[(m, l) for _, m, l in later_nav]!r} after the first user line"))
     if case.get("warm") and nav and not any(k == "abort-mode" for k, _ in v):
         v.append(("nav-when-at-level", f"navigation {nav!r} although the driver was at the level"))
+    if plat != "generic" and not case.get("generic_mode") and obs.get("mode0") is not None:
+        addressed = (case.get("priv") or "configuration") if op in CFG_OPS else obs.get("dpriv")
+        wrong = [(m, l) for m, l in users if m != addressed]
+        if wrong and addressed:
+            v.append(("user-mode", f"lines {wrong[:4]!r} were executed in a mode other than the one they were addressed to ({addressed!r}); "
+                      f"device was in {obs['mode0']!r} and the driver believed {obs.get('belief0')!r} when the call started"))
+        if addressed and obs["mode0"] == addressed and any(l != "" for _, l in nav) and not any(k == "abort-mode" for k, _ in v):
+            v.append(("nav-not-needed", f"navigation {nav!r} although the device already was in {addressed!r}"))
     if users:
         um = {m for m, _ in users}
         if len(um) > 1:
@@ -843,6 +934,20 @@ def gen_case(rng, idn, stack=None, platform=None):
             case["decoy"] = True
     if op in ("cfgsfile", "cmdsfile", "gfile") and not case["eager"] and not case["eager_input"] and not case.get("generic_mode") and rng.random() < 0.6:
         case["file_steps"] = gen_file_steps(rng, case["text"])
+    if plat != "generic" and not case.get("generic_mode") and not case["eager"] and not case["eager_input"] and rng.random() < 0.2:
+        th = []
+        for _ in range(rng.choice([1, 1, 2])):
+            o2 = rng.choice(["cfgs", "cfgs", "cfg", "cmds"])
+            ls2 = [rng.choice(["m0", "m1", " x y ", "é"] + case["fail"][:1]) for _ in range(rng.choice([1, 2, 3]))]
+            stp = {"op": o2, "stop": rng.random() < 0.6}
+            if o2 in LIST_OPS:
+                stp["lines"] = ls2
+            else:
+                stp["text"] = "\n".join(ls2)
+            if o2 in CFG_OPS and rng.random() < 0.3 and not case.get("session"):
+                stp["priv"] = rng.choice([x for x in CONFIG_LEVELS[plat] if x != "@session"])
+            th.append(stp)
+        case["then"] = th
     if not case.get("generic_mode") and rng.random() < 0.25:
         case["repeat"] = rng.choice([["same"], ["new"], ["other"], ["same", "same"], ["new", "other"], ["same", "other", "same"]])
     return finish_case(case)
@@ -955,6 +1060,27 @@ def extra_special_cases(start_id):
                         c["session"], c["priv"] = "s1", "s1"
                     out.append(finish_case(c))
                     idn += 1
+    # operation histories on ONE connection: a failed / aborted configuration call directly followed by 1-2 further operations
+    for plat in NET_PLATFORMS:
+        for stack in ("sync", "async"):
+            for lv in CONFIG_LEVELS[plat]:
+                sess = "s1" if lv == "@session" else None
+                lvl = "s1" if sess else lv
+                others = [x for x in CONFIG_LEVELS[plat] if x not in (lv, "@session")]
+                firsts = [("cfgs", {"lines": ["l0", "bad", "l2"]}, True), ("cfg", {"text": "l0\nbad"}, True), ("cfgs", {"lines": ["l0", "bad"]}, False),
+                          ("cfgs", {"lines": ["l0", "l1"]}, True)]
+                thens = [[{"op": "cfgs", "lines": ["m0", "m1"], "stop": True}],
+                         [{"op": "cfgs", "lines": ["m0", "bad", "m2"], "stop": True}, {"op": "cfgs", "lines": ["n0"], "stop": False}],
+                         [{"op": "cfg", "text": "m0\nm1", "stop": True}, {"op": "cmds", "lines": ["show x", "show y"], "stop": False}],
+                         [{"op": "cmds", "lines": ["show x"], "stop": False}, {"op": "cfgs", "lines": ["m0", "bad"], "stop": True}],
+                         [{"op": "cfgs", "lines": ["m0", "m1"], "stop": True, "priv": others[0]}, {"op": "cfgs", "lines": ["n0", "bad"], "stop": True}]]
+                for fop, fextra, fstop in firsts:
+                    for th in thens:
+                        c = {**base, "id": idn, "platform": plat, "stack": stack, "op": fop, "fail": ["bad"], "stop": fstop, "priv": lvl, "session": sess,
+                             "then": th}
+                        c.update(fextra)
+                        out.append(finish_case(c))
+                        idn += 1
     # file histories: the same path used again after rewrite / append / truncate / rename, same / new / other-stack connection
     for plat in NET_PLATFORMS + ["generic"]:
         for stack in ("sync", "async"):
@@ -1096,7 +1222,8 @@ def evaluate(ck, cases, tmpdir, count=True):
         sample["lines"] = [l[:30] for l in expected_lines(c)[:6]]
         if count and dom:
             ck.case((c["platform"], c["stack"], c["op"], tuple(expected_lines(c)), c["stop"], c["eager"], c.get("eager_input"), str(c["fwc"]),
-                     tuple(c["fail"]), c.get("priv"), c.get("warm"), c.get("ret"), tuple(sorted(c["outputs"].items())), tuple(c.get("repeat", ())), json.dumps(c.get("file_steps", []), sort_keys=True)),
+                     tuple(c["fail"]), c.get("priv"), c.get("warm"), c.get("ret"), tuple(sorted(c["outputs"].items())), tuple(c.get("repeat", ())), json.dumps(c.get("file_steps", []), sort_keys=True),
+                     json.dumps(c.get("then", []), sort_keys=True)),
                     nontrivial=nl >= 2 and (has_failure or c["eager"] or c["op"] in TEXT_OPS),
                     sample=sample,
                     tags=(f"platform={c['platform']}", f"stack={c['stack']}", f"op={c['op']}", f"n={min(nl, 6)}", f"stop={c['stop']}",
@@ -1109,7 +1236,8 @@ def evaluate(ck, cases, tmpdir, count=True):
                           "generic_driver_mode" if c.get("generic_mode") else "priv-mode",
                           "history=" + ("+".join(c["repeat"]) if c.get("repeat") else "single-call"),
                           "file-history=" + ("+".join((x.get("change") or "inmem") + "@" + x["how"] for x in c["file_steps"]) if c.get("file_steps") else "none"),
-                          ("channel-failure=" + c["fault"]["kind"]) if c.get("fault") else "channel-ok"))
+                          ("channel-failure=" + c["fault"]["kind"]) if c.get("fault") else "channel-ok",
+                          "op-history=" + ("+".join(x["op"] for x in c["then"]) if c.get("then") else "none")))
         elif count:
             ck.extra["advisory_out_of_domain_cases"] = ck.extra.get("advisory_out_of_domain_cases", 0) + 1
         # oracle
@@ -1191,6 +1319,57 @@ def evaluate(ck, cases, tmpdir, count=True):
             ck.traces_validated += 1
             if not dom:
                 ck.extra["mode_changing_lines_model_agrees"] = ck.extra.get("mode_changing_lines_model_agrees", 0) + 1
+    # operation histories: the follow-up calls replayed through the Lean driver with the MODEL's belief carried from call to call
+    # (device mode, navigation tape and channel results of each call come from the real run as for a first call)
+    if mout is not None:
+        carried = {i: model[i]["belief"] for i, c in enumerate(cases) if c.get("then") and model.get(i) and "belief" in model[i]
+                   and not c.get("fault") and model_domain(c)}
+        for d in range(3):
+            batch = []
+            for i, bel in carried.items():
+                th = obs[i].get("then", [])
+                if d < len(th):
+                    sub, rec = th[d]
+                    if rec["stall"] or not model_domain(sub):
+                        continue
+                    tbl = out_table_for(sub, rec) if rec.get("resps") else {(m, l): dev_text(sub, l).encode("utf-8") for sp, m, l in rec["log"] if not sp}
+                    batch.append((i, sub, rec, model_request(sub, {**rec, "belief0": bel}, tbl)))
+            if not batch:
+                break
+            try:
+                rep = run_model(PID, [b[3] for b in batch])
+            except Exception as e:
+                ck.proof_broken("model driver Drv/C13.lean (histories)", repr(e))
+                break
+            carried = {}
+            for (i, sub, rec, _), line in zip(batch, rep):
+                mr = parse_reply(line)
+                if mr is None:
+                    ck.disagree("Send model vs drivers (operation history)", {k: v for k, v in sub.items() if k != "outputs"}, "model driver replied bad-op")
+                    continue
+                real_err = "ok" if not rec["exc"] else "index" if rec["exc"] == "IndexError" else \
+                    ("nav" if any(not sp["ok"] for sp in rec["spans"]) else "priv") if rec["exc"] == "ScrapliPrivilegeError" else rec["exc"]
+                diffs = []
+                if mr["err"] != real_err:
+                    diffs.append(f"outcome impl={real_err} model={mr['err']}")
+                rl = [("n" if sp else "x", m, l) for sp, m, l in rec["log"]]
+                ml = [("n" if og == "n" else "x", m, l) for og, m, l in mr["log"]]
+                if rl != ml:
+                    diffs.append(f"device log impl={rl[:12]} model={ml[:12]}")
+                if rec["wire"] != mr["wire"]:
+                    diffs.append("wire bytes differ")
+                if rec["resps"] is not None and [(x[2], x[1]) for x in rec["resps"]] != mr["resps"]:
+                    diffs.append("responses differ")
+                if (rec["belief1"], rec["mode1"]) != (mr["belief"], mr["mode"]):
+                    diffs.append(f"belief/mode after impl={(rec['belief1'], rec['mode1'])} model={(mr['belief'], mr['mode'])}")
+                if diffs:
+                    ck.disagree("Send model vs drivers (operation history)",
+                                {"first": {k: v for k, v in cases[i].items() if k != "outputs"}, "call": d + 2,
+                                 "sub": {k: v for k, v in sub.items() if k != "outputs"}}, "; ".join(diffs))
+                else:
+                    ck.traces_validated += 1
+                    ck.extra["operation_history_calls_model_agrees"] = ck.extra.get("operation_history_calls_model_agrees", 0) + 1
+                    carried[i] = mr["belief"]
     # the Lean device's line discipline vs the Python device on the same write logs
     dev_cases = [o for c, o in zip(cases, obs) if in_domain(c) and "log" in o and not o["stall"] and c.get("ret", "\n") in ("\n", "\r\n")][:1500]
     if dev_cases and mout is not None:
@@ -1230,7 +1409,7 @@ def run(tier, seed):
                "(plain, empty, leading/trailing blanks, UTF-8, unicode line separators inside in-memory lines, 998..2400-byte lines, lines that "
                "contain marker text) x failing positions x marker set (driver default, constructor override, per-call str / list / empty list) x "
                "stop_on_failed x normal / eager / eager_input x return char x configuration level incl. registered EOS/NX-OS sessions x "
-               "driver already at the level or not x histories handing ONE list object to 2-4 calls (same connection, new connection, other stack) x file histories (the same path used 2-3 times with the content rewritten / appended / truncated / replaced by rename in between, same or other connection, mixed with in-memory calls). Small scope exhaustive: every list of length <= N over a 4-line alphabet x stop x every "
+               "driver already at the level or not x histories handing ONE list object to 2-4 calls (same connection, new connection, other stack) x file histories (the same path used 2-3 times with the content rewritten / appended / truncated / replaced by rename in between, same or other connection, mixed with in-memory calls) x operation histories (1-2 further send_configs / send_config / send_commands calls on the same connection directly after the first, each judged like a first call incl. the mode its lines ran in). Small scope exhaustive: every list of length <= N over a 4-line alphabet x stop x every "
                "platform level. Non-trivial = >= 2 lines and (a failure, eager, or a text/file source); distinct by all parameters. "
                "Oracle: device exec_log outside acquire_priv spans == expected prefix (+ vendor abort lines), bytes written == each executed "
                "line + one return, flags vs markers in the device's own output, abort lines' modes, caller's containers unchanged after every call, "
